@@ -11,7 +11,7 @@ use refmodel::layout::{self as rl, encode, layout, put, Kind, ENCS};
 use serde_json::{json, Value};
 use std::sync::Arc;
 
-const NSEC: [u64; 8] = [0, 1, 2, 3, 0xfeff, 0xff00, 0xff01, 0xff20];
+const NSEC: [u64; 10] = [0, 1, 2, 3, 0xfeff, 0xff00, 0xff01, 0xff20, 0x10000, 0x10010];
 const NPH: [u64; 7] = [0, 1, 2, 0xfffe, 0xffff, 0x10000, 0x10010];
 
 /// Hand-laid image: ehdr, optional padding, phdr table, section bodies, shdr table (placement
@@ -280,16 +280,19 @@ fn judge(ctx: &str, which: &str, got: Result<Seen, String>, want: &Seen, out: &m
 }
 
 /// counts x placements x encodings (right and wrong ones)
-struct Numbering;
+struct Numbering {
+    /// quick tier: files in which BOTH tables are huge are built for two of the four encodings only
+    quick: bool,
+}
 impl Numbering {
     fn dims() -> [u64; 6] {
         // enc, nsec, nph, placement, strndx choice, encoding variant
-        [4, 8, 7, 4, 4, 7]
+        [4, 10, 7, 4, 4, 7]
     }
 }
 impl Space for Numbering {
     fn name(&self) -> String {
-        "generated files: section count in {0,1,2,3,0xfeff,0xff00,0xff01,0xff20} x program header count in {0,1,2,0xfffe,0xffff,0x10000,0x10010} x table placement {ph-then-sh, sh-then-ph, sh touching EOF, sh one byte past EOF} x name-table index {0,1,n-1,beyond} x header encoding {reference writer, e_shnum=0 forced, PN_XNUM forced, SHN_XINDEX forced, shdr[0] fields zeroed, shdr[0] fields off by one, raw e_shstrndx in the reserved range with a different shdr[0].sh_link} x 4 encodings; both parsers".into()
+        "generated files: section count in {0,1,2,3,0xfeff,0xff00,0xff01,0xff20,0x10000,0x10010} x program header count in {0,1,2,0xfffe,0xffff,0x10000,0x10010} x table placement {ph-then-sh, sh-then-ph, sh touching EOF, sh one byte past EOF} x name-table index {0,1,n-1,beyond} x header encoding {reference writer, e_shnum=0 forced, PN_XNUM forced, SHN_XINDEX forced, shdr[0] fields zeroed, shdr[0] fields off by one, raw e_shstrndx in the reserved range with a different shdr[0].sh_link} x 4 encodings; both parsers".into()
     }
     fn size(&self) -> u64 {
         product(&Self::dims())
@@ -310,6 +313,10 @@ impl Space for Numbering {
             2 => nsec.saturating_sub(1),
             _ => nsec + 1,
         };
+        if self.quick && nsec >= 0xfeff && nph >= 0xfffe && (d[0] == 0 || d[0] == 3) {
+            out.count("both_tables_huge:thorough_tier_only_for_this_encoding");
+            return;
+        }
         if nsec == 0 && (d[3] >= 2 || d[4] != 0) {
             out.count("duplicate_of_another_case");
             return;
@@ -529,7 +536,7 @@ pub fn build(tier: Tier) -> CheckDef {
         level: "model_checking",
         rule: "complete grid of generated files around the extended-numbering thresholds (counts, table placements, name-table indexes, right and wrong header encodings) and every entsize value of the alphabet; a reference model of the numbering rules says whether opening must succeed and how many uniquely tagged entries each table must have; both parsers are run on every file. non-trivial = file that must open".into(),
         assumptions: vec!["files up to ~8 MB are generated in memory (0xff20 sections x 64 B + 0x10010 program headers x 56 B)".into()],
-        spaces: vec![Box::new(Numbering), Box::new(Entsizes { all_small: tier == Tier::Thorough })],
+        spaces: vec![Box::new(Numbering { quick: tier == Tier::Quick }), Box::new(Entsizes { all_small: tier == Tier::Thorough })],
         abort_is_violation: true,
         hang_is_violation: false,
         exhaustive: true,
